@@ -867,7 +867,7 @@ func main() {
 	reps := 2
 	if thorough {
 		delays = []int{0, 0, 0, 5, 20, 50, 100, 200, 500, 1000, 2000, 5000}
-		reps = 6
+		reps = 10
 	}
 	for _, sub := range subsets() {
 		for r := 0; r < reps; r++ {
@@ -880,7 +880,7 @@ func main() {
 	// --- C: seeded random scenarios ---
 	nRand := 25
 	if thorough {
-		nRand = 400
+		nRand = 1200
 	}
 	subs := subsets()
 	for k := 0; k < nRand; k++ {
